@@ -214,6 +214,18 @@ func TestC07(t *testing.T) {
 			nCells++
 		}
 		harness.Class("cell-kind:"+string(k), 1)
+		// the largest frame the header can describe (length field 65535 = 262144 octets), for
+		// every 64th cell without a table row: it must come back verbatim as a RawPacket too
+		if k == m.KRAW && cell%64 == 5 {
+			big := make([]byte, 262144)
+			big[0], big[1], big[2], big[3] = 0x80|count, pt, 0xFF, 0xFF
+			for i := 4; i < len(big); i += 97 {
+				big[i] = byte(i)
+			}
+			subC07Dispatch.Check(t, c07Cell{Frame: big})
+			nCells++
+			harness.Class("cell-max-length-frame", 1)
+		}
 	}
 	harness.Eval(subC07Dispatch.Name, nCells)
 	harness.NonTrivialDistinct(hi - lo) // every (PT, FMT) cell is distinct by construction
